@@ -25,7 +25,10 @@ PROP = {
     "trusted_base": CACHE_TB + MD_TB, "assumptions": CACHE_ASSUMPTIONS + [
         "Reset returns the counters and the sync/connected flags of the metadata *object* to their initial values; the meta/... leaves "
         "show them after the refresh provided the clock reading is not older than the stored metadata leaves (non-decreasing clock)",
-        "ending of single-target subscriptions on Remove is decided with the subscribe model (C04/C05 sender step isTargetDelete)",
+        "ending of single-target subscriptions on Remove is proved over the sequential subscribe model (Props/C14Sub.lean; the model is tied to "
+        "subscribe/subscribe.go by the su correspondence of C04/C05/C07/C08 and the corpus case corpus/C14/remove_ends_subscriptions.ops): it covers "
+        "STREAM subscriptions that registered at least one path; POLL/ONCE subscriptions and STREAM subscriptions with an empty subscription list "
+        "register nothing and are not ended by Remove (model and code agree: remove_unregistered_unaffected, not_every_single_target_subscription)",
         "metadata objects are created by metadata.New (a zero metadata.Metadata{} has nil maps and panics on every write); the "
         "package-level registries are changed from one goroutine (the package documents them as not thread-safe)",
     ],
@@ -54,3 +57,35 @@ PROP = {
     },
 }
 PROP.setdefault("pre", []).append(facts.make_step(['cache.reset.order', 'cache.remove.announces']))
+
+# C14 clause "removing a target ends single-target subscriptions to it cleanly", over the sequential code-shaped Subscribe
+# model (Model/Subscribe.lean) for every history of SubEnd.Op operations (all of C07.Op + cache API calls + pregate).
+from subprops import SUB_TB as _SUB_TB
+PROP["modules"] += ["Gnmi.Lemmas.SubscribeEnd", "Gnmi.Props.C14Sub"]
+PROP["theorems"] += ["Gnmi.C14Sub." + t for t in [
+    "remove_ends_single_target_stream", "remove_ends_single_target_stream_fields", "remove_ends_single_target_stream_grun",
+    "remove_keeps_star_subscribers", "remove_keeps_star_subscribers_fields", "remove_other_target_unaffected",
+    "remove_gated_pending", "remove_gated_ends_on_open", "remove_gated_ends_eventually",
+    "remove_unregistered_unaffected", "not_every_single_target_subscription", "remove_star_ends_others",
+    # non-vacuity
+    "st0_reachable", "st0_subs", "st0_after_remove", "st0_after_open",
+]] + ["Gnmi.SubEnd." + t for t in [
+    "pump_frame", "pump_quiet", "subscribe_inv", "step_pointwise", "step_at", "run_at", "run_inv", "reachable_inv",
+    "hrun_eq", "grun_eq", "c07run_eq", "reachable_hrun", "reachable_grun", "reachable_c07",
+    "offeredR_td_true", "offeredR_td_false", "feedSub_not_offered", "feedSub_td_ends", "feedSub_td_star", "feedSub_td_gated",
+    "pump_open_cut", "gateF_open_cut", "cutTD_last", "subStep_blocked_notes", "subRun_blocked_notes",
+]]
+PROP["trusted_base"] = PROP["trusted_base"] + [x for x in _SUB_TB if x not in PROP["trusted_base"]]
+PROP["manifest"]["level_text"] += (
+    " The clause 'removing a target ends single-target subscriptions to it cleanly' is proved over the sequential code-shaped Subscribe "
+    "model (Props/C14Sub.lean) for every state reachable by any history of subscriptions (any mode/ACL/request), cache API calls, arbitrary "
+    "feed events, polls, EOF, flow-control operations, timeouts and drains, with no side condition on the history: "
+    "remove_ends_single_target_stream (a running STREAM subscriber on T with flow control open and at least one subscription path is sent "
+    "exactly the whole-target delete and its RPC returns OK; nothing else of it changes), remove_keeps_star_subscribers (an all-targets "
+    "subscriber stays and is sent the delete, or nothing if its ACL hides T), remove_other_target_unaffected (subscribers on U != T: unchanged), "
+    "remove_gated_pending / remove_gated_ends_on_open / remove_gated_ends_eventually (flow control shut: nothing is sent, the delete is the last "
+    "response waiting; at gateOpen - immediately or after any operations that are not the subscriber's own - it is sent what is waiting up to "
+    "and including the first whole-target delete and ends OK). Not covered, in model and code alike (replayed: corpus/C14/remove_ends_subscriptions.ops): "
+    "POLL/ONCE subscriptions and STREAM subscriptions with an empty subscription list register nothing and are not ended "
+    "(remove_unregistered_unaffected, not_every_single_target_subscription); Remove of a target literally named '*' ends single-target streams on "
+    "other targets (remove_star_ends_others).")
